@@ -291,6 +291,10 @@ type Opts struct {
 	// BusyBlockOneIn > 0: one block in that many is busy (10..30 transactions with 2..5 events each), so that with large
 	// EvAddrs/EvKeys pools the block's events bloom has many hundreds of set bits.
 	BusyBlockOneIn int
+	// ReincludeOrphans: a fork re-includes transactions of the blocks it abandons (the mempool puts them into the replacing
+	// blocks: same transaction, same hash, another block / index / neighbours; its receipt is drawn anew). Each orphan is used
+	// at most once per chain.
+	ReincludeOrphans bool
 }
 
 // Chain is a generated chain with its model snapshots. Blocks[i].Num() == i.
@@ -304,6 +308,7 @@ type Chain struct {
 	forks  *uint64 // shared by all forks of one root chain: gives every fork its own nonce space
 	Frozen bool    // a per-process base chain shared between cases: forks of it start their own family
 	busy   bool    // the block being drawn is a busy block (see Opts.BusyBlockOneIn)
+	orphans []core.Transaction // transactions of abandoned blocks not yet re-included (Opts.ReincludeOrphans)
 }
 
 func NewChain(u *Universe, o Opts) *Chain {
@@ -330,6 +335,14 @@ func (c *Chain) Fork(n int) *Chain {
 	// must not collide between forks
 	f := &Chain{U: c.U, Opt: c.Opt, ts: c.ts + 1000, nonce: (*forks) * 1_000_000_000, verIdx: c.Opt.MinVersionIdx, forks: forks}
 	f.Blocks = append(f.Blocks, c.Blocks[:n]...)
+	if c.Opt.ReincludeOrphans {
+		f.orphans = append(f.orphans, c.orphans...)
+		for _, b := range c.Blocks[n:] {
+			for _, tx := range b.B.Transactions {
+				f.orphans = append(f.orphans, CloneTx(tx))
+			}
+		}
+	}
 	if n > 0 {
 		for i, v := range Versions {
 			if v == c.Blocks[n-1].B.ProtocolVersion {
@@ -827,7 +840,14 @@ func (c *Chain) drawTxs(t *rapid.T, version string, d *core.StateDiff, tags map[
 		tags["eventless-block-with-txs"] = true
 	}
 	for i := range txs {
-		txs[i] = c.DrawTx(t, version)
+		if len(c.orphans) > 0 && rapid.IntRange(0, 2).Draw(t, "reinclude") == 0 {
+			k := rapid.IntRange(0, len(c.orphans)-1).Draw(t, "orphan")
+			txs[i] = c.orphans[k]
+			c.orphans = append(append([]core.Transaction{}, c.orphans[:k]...), c.orphans[k+1:]...)
+			tags["reincluded-orphan"] = true
+		} else {
+			txs[i] = c.DrawTx(t, version)
+		}
 		rs[i] = c.DrawReceipt(t, txs[i])
 		if eventless {
 			rs[i].Events = []*core.Event{}
